@@ -657,6 +657,12 @@ def rule_recursion(rep, rid, tu, tree_base=None, min_reachable=40):
     return cycles
 
 
+class WrongRadix(Exception):
+    def __init__(self, radix, at):
+        Exception.__init__(self, 'radix %d at %s' % (radix, at))
+        self.radix, self.at = radix, at
+
+
 def lexer_number(idx, ns, lo, hi):
     """Interpret <ns>::Lexer::getNextToken on a decimal literal whose numeric value n (as std::strtoul delivers it) ranges over
     [lo, hi].  Returns ('value', IV of the lexer's value member, token) or ('throws', what); raises NeedSplit when a branch
@@ -676,7 +682,15 @@ def lexer_number(idx, ns, lo, hi):
             r = {'isspace': s_ in ' \t\n\r\v\f' and s_ != '', 'isalpha': s_.isalpha(), 'isalnum': s_.isalnum(), 'isdigit': s_.isdigit(),
                  'isxdigit': s_ in '0123456789abcdefABCDEF' and s_ != ''}[name]
             return const(32, True, 1 if r else 0)
-        if kind == 'function' and name in ('strtoul', 'strtoull', 'stoul', 'stoull'):
+        if kind == 'function' and name in ('strtoul', 'strtoull', 'stoul', 'stoull', 'strtol', 'strtoll', 'stol', 'stoll', 'stoi'):
+            # the script is a decimal digit string: only radix 10 delivers its value (radix 0 reads a zero-padded decimal as octal)
+            radix = I.expr(args[2], env) if len(args) > 2 and args[2].get('kind') != 'CXXDefaultArgExpr' else const(32, True, 10)
+            if not (isinstance(radix, IV) and radix.concrete()):
+                raise AnalysisBroken('conversion radix is not a constant on the decimal path at %s' % pos(n))
+            if radix.lo != 10:
+                raise WrongRadix(radix.lo, pos(n))
+            if name.startswith('sto') and name not in ('stoul', 'stoull'):
+                raise AnalysisBroken('signed conversion %s at %s' % (name, pos(n)))
             _store_endptr(I, args, env)
             return N
         if kind == 'method' and name == 'get' and 'istream' in t and args:
